@@ -7,11 +7,11 @@ def core_schema(mutation=True, subscription=True):
         iface("Node", [("id", "ID!"), ("label", "String")]),
         iface("Named", [("name", "String!")]),
         obj("User", [("id", "ID!"), ("label", "String"), ("name", "String!"), ("age", "Int"), ("extId", "ID"), ("aliases", "[ID!]"), ("friend", "Node"),
-                     ("friends", "[User!]!"), ("tags", "[String]"), ("roles", "[Role!]"), ("dates", "[Date]!"), ("type", "String"), ("ref", "ID"), ("pet", "Pet"), ("role", "Role"),
+                     ("friends", "[User!]!"), ("tags", "[String]"), ("roles", "[Role!]"), ("dates", "[Date]!"), ("type", "String"), ("ref", "ID"), ("createdAt", "Date"), ("in", "[ID!]"), FieldDef("match", "Int", dep=(None,)), ("pet", "Pet"), ("role", "Role"),
                      ("since", "Date"), ("score", "Float"), ("active", "Boolean!"),
                      FieldDef("legacy", "String", dep=("use label",))], ["Node", "Named"]),
         # Org refines the interface's nullable `label` to non-null (legal covariance)
-        obj("Org", [("id", "ID!"), ("label", "String!"), ("name", "String!"), ("members", "[User!]"), ("memberIds", "[ID!]!"), ("return", "Int!"),
+        obj("Org", [("id", "ID!"), ("label", "String!"), ("name", "String!"), ("members", "[User!]"), ("memberIds", "[ID!]!"), ("return", "Int!"), ("kindOf", "Role!"),
                     ("owner", "User!"), ("kind", "Role!")], ["Node", "Named"]),
         obj("Bot", [("id", "ID!"), ("label", "String"), ("version", "Int!")], ["Node"]),
         obj("Cat", [("name", "String!"), ("lives", "Int")]),
@@ -36,9 +36,10 @@ def core_schema(mutation=True, subscription=True):
                   ("grid", "[[Int!]]!"), ("rows", "[[String!]!]"), ("ids", "[ID]!"), ("matrix", "[[Node!]]"),
                   FieldDef("find", "Outcome", args=[("input", "search_input")]), ("outcomes", "[Outcome!]")]),
         inp("Filter", [("text", "String"), ("role", "Role"), ("ids", "[ID!]"), ("and", "Filter"),
-                       ("not", "[Filter!]"), ("range", "Range!"), ("pick", "Pick")]),
+                       ("not", "[Filter!]"), ("range", "Range!"), ("pick", "Pick"),
+                       ("type", "Filter"), ("notIn", "[Filter!]"), FieldDef("byKind", "Role", default="ADMIN"), ("extID", "ID")]),
         inp("Range", [("from", "Int"), ("to", "Int")]),
-        inp("Pick", [("byId", "ID"), ("byName", "String"), ("byRange", "Range"), ("by_handle", "String"), ("userID", "ID")], one_of=True),
+        inp("Pick", [("byId", "ID"), ("byName", "String"), ("byRange", "Range"), ("by_handle", "String"), ("userID", "ID"), ("type", "Range"), ("inList", "[Int!]")], one_of=True),
     ]
     roots = {"query": "Q"}
     if mutation:
@@ -104,6 +105,10 @@ def items_user():
         ("on User", Inline("User", [Field("age")])), ("on Node", Inline("Node", [Field("label")])),
         ("...UserRec", Spread("UserRec")), ("extId", Field("extId")), ("...UserX", Spread("UserX")), ("aliases", Field("aliases")),
         ("roles", Field("roles")), ("dates", Field("dates")), ("type", Field("type")), ("ref", Field("ref")),
+        # fields the server may leave out
+        ("name@skip", Field("name", directives=[("skip", "s")])), ("id@include", Field("id", directives=[("include", "s")])),
+        ("friends@include", Field("friends", [Field("name")], directives=[("include", "s")])), ("role@skip", Field("role", directives=[("skip", "s")])),
+        ("createdAt", Field("createdAt")), ("in", Field("in")), ("match", Field("match")), ("c:createdAt", Field("createdAt", alias="c")),
     ]
 
 
@@ -117,6 +122,7 @@ def items_node():
         ("on User{extId}", Inline("User", [Field("extId")])), ("...UserX", Spread("UserX")), ("on Org{label}", Inline("Org", [Field("label")])),
         ("on Org{memberIds}", Inline("Org", [Field("memberIds")])), ("...CardN", Spread("CardN")), ("...ChainN", Spread("ChainN")),
         ("on Org{return}", Inline("Org", [Field("return"), Field("kind")])),
+        ("on Org{kindOf}", Inline("Org", [Field("kindOf"), Field("memberIds")])), ("on User{in}", Inline("User", [Field("in"), Field("createdAt"), Field("match")])),
     ]
 
 
@@ -167,6 +173,9 @@ def foci():
             if f.name not in names:
                 frs.append(f)
                 names.add(f.name)
+        import gql
+        dvars = gql.directive_variables(Doc(frs + [Op(opkind, "Op", sel, ())]))
+        vars_ = tuple(vars_) + tuple((v, "Boolean!", None) for v in dvars if v not in [x[0] for x in vars_])
         return Doc(frs + [Op(opkind, "Op", sel, vars_)])
 
     def sel_of(items):
